@@ -233,9 +233,11 @@ fn observe_inner(pool: &Pool<Mgr>, sh: &Sh) -> (Value, Value) {
 
 
 /// executes one harness action on the calling thread and returns its result
-fn exec_action(pool: &Pool<Mgr>, sh: &Sh, tasks: &mut HashMap<String, Task>, step: &Value) -> Value {
+fn exec_action(pool_opt: Option<&Pool<Mgr>>, sh: &Sh, tasks: &mut HashMap<String, Task>, step: &Value) -> Value {
     let a = &step["act"];
     let kind = a[0].as_str().unwrap();
+    // after `drop_pool` only drop / take are issued (they do not need a handle)
+    let need = || pool_opt.expect("this action needs a pool handle");
     let waker = noop_waker();
             let mut res = json!(["ok"]);
             let mut cx = Context::from_waker(&waker);
@@ -243,7 +245,7 @@ fn exec_action(pool: &Pool<Mgr>, sh: &Sh, tasks: &mut HashMap<String, Task>, ste
                 "get" | "poll" => {
                     let t = tasks.entry(a[1].as_str().unwrap().to_string()).or_default();
                     if kind == "get" {
-                        let p2 = pool.clone();
+                        let p2 = need().clone();
                         let tv = step["timeouts"].clone();
                         t.fut = Some(if tv.is_null() { Box::pin(async move { p2.get().await }) }
                                      else { let tt = timeouts_of(&tv); Box::pin(async move { p2.timeout_get(&tt).await }) });
@@ -284,16 +286,16 @@ fn exec_action(pool: &Pool<Mgr>, sh: &Sh, tasks: &mut HashMap<String, Task>, ste
                     }));
                     res = if r.is_ok() { json!(["ok", "taken"]) } else { json!(["panic"]) };
                 }
-                "status" => { let s = pool.status(); res = json!(["ok", [s.max_size, s.size, s.available, s.waiting]]); }
+                "status" => { let s = need().status(); res = json!(["ok", [s.max_size, s.size, s.available, s.waiting]]); }
                 "resize" => {
                     let n = a[1].as_u64().unwrap() as usize;
-                    if catch_unwind(AssertUnwindSafe(|| pool.resize(n))).is_err() { res = json!(["panic"]); }
+                    if catch_unwind(AssertUnwindSafe(|| need().resize(n))).is_err() { res = json!(["panic"]); }
                 }
-                "close" => { if catch_unwind(AssertUnwindSafe(|| pool.close())).is_err() { res = json!(["panic"]); } }
-                "is_closed" => { res = json!(["ok", pool.is_closed()]); }
+                "close" => { if catch_unwind(AssertUnwindSafe(|| need().close())).is_err() { res = json!(["panic"]); } }
+                "is_closed" => { res = json!(["ok", need().is_closed()]); }
                 "retain" => {
                     let sh2 = sh.clone();
-                    let r = catch_unwind(AssertUnwindSafe(|| pool.retain(|o, m| {
+                    let r = catch_unwind(AssertUnwindSafe(|| need().retain(|o, m| {
                         let mj = metrics_json(&sh2, o.id, &m);
                         ev(&sh2, json!(["pred_call", format!("obj:{}", o.id), "C", mj]));
                         let keep = match next(&sh2, "pred").as_str() { "keep" => true, "panic" => panic!("scripted panic in predicate"), _ => false };
@@ -342,6 +344,7 @@ fn run_managed(trace: &Value) {
             Err(e) => { println!("{}", json!({"i": -1, "res": ["build_err", format!("{:?}", e)], "events": build_events})); return; }
         };
         println!("{}", json!({"i": -1, "res": ["built"], "events": build_events}));
+        let mut pool_opt = Some(pool);
         let mut tasks: HashMap<String, Task> = HashMap::new();
         for (i, step) in trace["actions"].as_array().unwrap().iter().enumerate() {
             progress(i);
@@ -355,8 +358,15 @@ fn run_managed(trace: &Value) {
             if let Some(adv) = step.get("advance_ns").and_then(|v| v.as_u64()) {
                 if adv > 0 { tokio::time::advance(Duration::from_nanos(adv)).await; }
             }
-            let res = exec_action(&pool, &sh, &mut tasks, step);
-            let (status, snap) = observe(&pool, &sh);
+            if kind == "drop_pool" {
+                // the last handle goes away (finished get() futures hold none): idle objects die with the pool
+                let r = catch_unwind(AssertUnwindSafe(|| drop(pool_opt.take())));
+                let events = std::mem::take(&mut sh.lock().unwrap().events);
+                println!("{}", json!({"i": i, "res": if r.is_ok() { json!(["ok"]) } else { json!(["panic"]) }, "events": events, "status": Value::Null, "snap": Value::Null, "mismatch": Value::Null, "script_left": 0}));
+                continue;
+            }
+            let res = exec_action(pool_opt.as_ref(), &sh, &mut tasks, step);
+            let (status, snap) = match pool_opt.as_ref() { Some(p) => observe(p, &sh), None => (Value::Null, Value::Null) };
             let (events, mismatch, left) = { let mut g = sh.lock().unwrap(); (std::mem::take(&mut g.events), g.mismatch.take(), g.script.len()) };
             println!("{}", json!({"i": i, "res": res, "events": events, "status": status, "snap": snap, "mismatch": mismatch, "script_left": left}));
         }
@@ -420,7 +430,7 @@ fn run_managed_threads(trace: &Value) {
                 // as skipped (the engine saw the calling thread hold a pool lock there)
                 let _ = &kind;
                 CTX.with(|c| c.borrow().as_ref().unwrap().cb_points.set(true));
-                let r = exec_action(&pool2, &sh2, &mut tasks, &step);
+                let r = exec_action(Some(&pool2), &sh2, &mut tasks, &step);
                 rep_tx.send(Report::Done(r)).unwrap();
             }
             std::mem::forget(tasks);
